@@ -1,21 +1,12 @@
-"""Per-property configuration of ./check: which Lean modules carry the property theorems."""
+"""Per-property configuration of ./check (which Lean modules carry the property theorems, the
+assumptions and the level text).  One file per property under tools/props.d/<id>.py defining ENTRY."""
+import glob
+import os
 
-PROPS = {
-    "C06": {
-        "modules": ["VirtioVerif.Props.C06"],
-        "assumptions": [
-            "Hal contract: dma_alloc returns zeroed, page-aligned, non-aliasing memory (the ledger HAL provides exactly that and the oracle checks zero-fill of the registered areas)",
-            "element sizes (Descriptor 16 bytes, UsedElem 8 bytes) are regenerated from the current tree by `vh consts` (rustc is the translator) and imported by the theorems",
-        ],
-        "explanation": "Theorems over every size n=2^k (any k), both layouts, all flags and transport answers about the executable layout model; the model is compared event-for-event with VirtQueue::new + drop on the exhaustive configuration grid, and an independent oracle checks alignment, containment, disjointness, direction and zero-fill on the real memory.",
-    },
-    "C05": {
-        "modules": ["VirtioVerif.Props.C05"],
-        "assumptions": [
-            "the device is specification-following in its *notification* behaviour (vring_need_event / NO_NOTIFY flag); its values are otherwise arbitrary",
-            "memory model: sequentially consistent view of the loads of used.flags / avail_event (the Acquire loads of the code are not modelled)",
-            "the liveness reading ('blocking helpers return as soon as the device has served') is stated as a safety property of the composition: the helper notifies whenever the device is entitled to sleep; the wait loop's exit condition is compared dynamically",
-        ],
-        "explanation": "Theorems for every 16-bit index value and every batch size up to 2^15 (notify_sound: specification's vring_need_event implies should_notify, across wrap-around), both flag values, set_dev_notify exactness, used_event re-arming after every pop, and add_notify_wait_pop notifying a device that asked for it; the executable model of should_notify is compared with the real queue on the truth table (thorough: all 2^32 index pairs), the specification predicate is evaluated as an independent oracle over tracked batches, and the blocking helper is co-simulated under three device policies via the spin hook.",
-    },
-}
+PROPS = {}
+NOT_APPLICABLE = {}
+_d = os.path.join(os.path.dirname(os.path.abspath(__file__)), "props.d")
+for _p in sorted(glob.glob(os.path.join(_d, "C*.py"))):
+    _ns = {}
+    exec(compile(open(_p).read(), _p, "exec"), _ns)
+    PROPS[os.path.basename(_p)[:-3]] = _ns["ENTRY"]
